@@ -35,7 +35,6 @@
 -/
 import JdProofs.EqualsList
 import JdProofs.EqualsSet
-import JdProofs.OptSites
 import JdProps.C01Precision
 
 namespace Jd.Props.C04
@@ -154,13 +153,7 @@ theorem alias_string_number :
 theorem negzero_equal_as_sets_after_fix :
     equals [.set] (.arr .raw [.num 0]) (.arr .raw [.num 0x8000000000000000]) = true := by decide +kernel
 
-/-! ### Option plumbing of the Go source = the model's (regenerated table, JdProofs/OptSites.lean)
-
-   Which option list each call inside v2/ and lib/ passes to `hashCode` / `Equals` / `diff` / `ident` / `dispatch` … is
-   regenerated from the Go source on every run (tools/optfacts, 187 sites) and proved equal to the table the model was
-   written against. A dropped or added option argument breaks this, whether or not a generated input reaches it. -/
-
-theorem option_plumbing_as_modelled : Gen.optSites = Jd.OptSites.expected :=
-  Jd.OptSites.option_plumbing_as_modelled
+/-! ### Option plumbing: the regenerated table of the calls inside the functions behind this property is proved equal to the
+    model's in JdProofs/CondSites/P_C04.lean (`option_plumbing_as_modelled_C04`), built and audited by this property's check. -/
 
 end Jd.Props.C04
